@@ -133,3 +133,116 @@ def composition_lemma():
     k = z3.Int("k")
     return [("every function's rewriting in a round is justified by the substitutions recorded for its unique function",
              z3.Implies(z3.And(hyp, 0 <= k, k < N), REL(A0(k), MV(A0(k)), A1(k))))]
+
+
+# ------------------------------------------------------------ duplicate_checker.main: "Combining Inverse Subs" (C03, C17)
+def _combine_region(fnode):
+    """`if rank == 0: all_inv_subs = [[]] * ntot ...` and the `for r in range(nround)` loop that follows it"""
+    for k, s in enumerate(fnode.body):
+        if isinstance(s, _ast.If) and any(isinstance(t, _ast.Assign) and getattr(t.targets[0], "id", None) == "all_inv_subs" for t in s.body):
+            if k + 1 < len(fnode.body) and isinstance(fnode.body[k + 1], _ast.For) and \
+                    any(isinstance(c, _ast.Call) and getattr(c.func, "attr", None) == "load_subs" for c in _ast.walk(fnode.body[k + 1])):
+                return [s, fnode.body[k + 1]]
+    return None
+
+
+I_ = z3.IntSort()
+NT = z3.Int("ntot")
+NR = z3.Int("nround")
+RLEN = z3.Function("round.rows", I_, I_)                 # rows of round r's map file (= lines of its index file)
+RIDX = z3.Function("round.idx", I_, I_, I_)              # line i of inv_idx_<c>_round_<r>.txt: the function the row belongs to
+RROW = z3.Function("round.rowlen", I_, I_, I_)           # number of substitutions in row i
+RE = z3.Function("round.entry", I_, I_, I_, Label)       # substitution k of row i
+HASR = z3.Function("round.has", I_, I_, z3.BoolSort())   # function f has a row in round r
+WR = z3.Function("round.rowof", I_, I_, I_)              # ... and this is the row
+CLEN = z3.Function("chain.len", I_, I_, I_)              # length of function f's chain after rounds 0..r-1
+CGET = z3.Function("chain.get", I_, I_, I_, Label)
+
+
+def combine_rounds_contract():
+    """Rank-0 view.  Chain of function f after the loop = the rows recorded for f in rounds 0, 1, ..., nround-1, concatenated in that
+    order (CLEN/CGET are defined by recursion on the round number; a round in which f has no row contributes nothing)."""
+    from pyvc.engine import Heap
+
+    def setup(eng, st, args):
+        st.env["rank"] = VInt(0)
+        r, i, i2, f, k = z3.Ints("r!ax i!ax i2!ax f!ax k!ax")
+        eng.axioms += [
+            z3.ForAll([r], RLEN(r) >= 0, patterns=[RLEN(r)]),
+            z3.ForAll([r, i], z3.Implies(z3.And(0 <= i, i < RLEN(r)), z3.And(RROW(r, i) >= 0, HASR(r, RIDX(r, i)), WR(r, RIDX(r, i)) == i)), patterns=[RIDX(r, i)]),
+            z3.ForAll([r, f], z3.Implies(HASR(r, f), z3.And(0 <= WR(r, f), WR(r, f) < RLEN(r), RIDX(r, WR(r, f)) == f)), patterns=[HASR(r, f)]),
+            z3.ForAll([f], CLEN(z3.IntVal(0), f) == 0, patterns=[CLEN(z3.IntVal(0), f)]),
+            z3.ForAll([r, f], z3.Implies(r >= 0, CLEN(r + 1, f) == CLEN(r, f) + z3.If(HASR(r, f), RROW(r, WR(r, f)), 0)), patterns=[CLEN(r + 1, f)]),
+            z3.ForAll([r, f, k], z3.Implies(r >= 0, CGET(r + 1, f, k) == z3.If(k < CLEN(r, f), CGET(r, f, k), RE(r, WR(r, f), k - CLEN(r, f)))), patterns=[CGET(r + 1, f, k)]),
+        ]
+
+        def rows(r):
+            def row(i):
+                eng._addr += 1
+                Heap.shared[eng._addr] = HSeq(RROW(r, i), lambda k, i=i: VLabel(RE(r, i, k)), etype=T.label)
+                return VRef(eng._addr)
+            return row
+
+        def m_load_subs(eng_, st_, a, kw, node):
+            r = eng_.as_int(st_.env["r"])
+            return st_.alloc(HSeq(RLEN(r), rows(r), etype=T.list(T.label)))
+
+        def m_loadtxt(eng_, st_, a, kw, node):
+            r = eng_.as_int(st_.env["r"])
+            return st_.alloc(HSeq(RLEN(r), lambda i: VInt(RIDX(r, i)), numpy=True, etype=T.int))
+        eng.models["simplifier.load_subs"] = m_load_subs
+        eng.models["np.loadtxt"] = m_loadtxt
+        eng.models["np.atleast_1d"] = lambda e, s, a, k, n: a[0]
+
+    def requires(S, a):
+        r, i = z3.Ints("r!rq i!rq")
+        return [("nround >= 0, ntot >= 0", z3.And(NR >= 0, NT >= 0)),
+                ("every line of a round's index file is a function index (the writer lists indices of all_inv_subs; distinctness is in the witness axioms)",
+                 z3.ForAll([r, i], z3.Implies(z3.And(0 <= r, r < NR, 0 <= i, i < RLEN(r)), z3.And(0 <= RIDX(r, i), RIDX(r, i) < NT)), patterns=[RIDX(r, i)]))]
+
+    def row_is(S, f, rr):
+        ai = S.seq(S.var("all_inv_subs"))
+        v = ai.get(f)
+        if not isinstance(v, VRef):
+            return z3.BoolVal(False)
+        o = S.st.heap[v.addr]
+        k = z3.Int(fresh_name("k!ri"))
+        e = o.get(k)
+        if not isinstance(e, VLabel):
+            return z3.And(o.len == CLEN(rr, f), o.len == 0)        # the element function of an empty list literal: only the empty chain is representable
+        return z3.And(o.len == CLEN(rr, f), z3.ForAll([k], z3.Implies(z3.And(0 <= k, k < o.len), e.t == CGET(rr, f, k))))
+
+    def outer(S, st):
+        r = S.var("__i").t
+        ai = S.seq(S.var("all_inv_subs"))
+        f = z3.Int(fresh_name("f!o"))
+        return [("one chain per function", ai.len == NT),
+                ("every chain is the concatenation of the function's rows of the rounds read so far", z3.ForAll([f], z3.Implies(z3.And(0 <= f, f < NT), row_is(S, f, r))))]
+
+    def inner(S, st):
+        r = S.eng.as_int(S.var("r"))
+        i = S.var("__i").t
+        ai = S.seq(S.var("all_inv_subs"))
+        f = z3.Int(fresh_name("f!i"))
+        return [("one chain per function", ai.len == NT),
+                ("functions whose row of this round has been read carry it at the end of their chain, the others are as after the previous round",
+                 z3.ForAll([f], z3.Implies(z3.And(0 <= f, f < NT), z3.If(z3.And(HASR(r, f), WR(r, f) < i), row_is(S, f, r + 1), row_is(S, f, r)))))]
+
+    def ensures(S, a, res):
+        f = z3.Int(fresh_name("f!sk"))
+        ai = S.seq(S.var("all_inv_subs"))
+        return [("one chain per function", ai.len == NT),
+                ("the chain of every function is the concatenation, in round order, of the rows recorded for it", z3.Implies(z3.And(0 <= f, f < NT), row_is(S, f, NR)))]
+
+    def loop_select(node):
+        if isinstance(node, _ast.For) and isinstance(node.target, _ast.Name) and node.target.id == "r":
+            return LoopSpec(outer, havoc_types={"all_inv_subs": T.list(T.list(T.label)), "inv": T.list(T.list(T.label)), "idx": T.arr(T.int), "i": T.int, "j": T.int})
+        if isinstance(node, _ast.For) and isinstance(node.target, _ast.Tuple):
+            return LoopSpec(inner, havoc_types={"all_inv_subs": T.list(T.list(T.label)), "i": T.int, "j": T.int})
+        return None
+
+    c = Contract("main", {"ntot": lambda e, s: VInt(NT), "nround": lambda e, s: VInt(NR), "max_param": T.int, "dirname": T.label, "compl": T.int},
+                 requires=requires, ensures=ensures, setup=setup, region=_combine_region, raises=lambda S, a, e: z3.BoolVal(False))
+    c.loop_select = loop_select
+    c.region_name = "combining the rounds' maps"
+    return c
